@@ -91,6 +91,18 @@ def orderedFallback (l : List Kind) (k : Kind) : Bool :=
   (k = .ns && !hasKind [.ns] l && (firstIdx Gen.nsFirstBefore (l.drop (afterLastOf Gen.nsStartAfter l))).isNone) ||
   (k = .vars && !hasKind [.vars] l && (firstIdx Gen.varsFirstBefore l).isNone)
 
+/-- the operations whose effect on the ORDER of the sheet's list is a listed known finding
+(C09-add-variables-scan, C09-inorder-index-not-ignored) -/
+def OrderRegion (st : St) : Op → Prop
+  | .add s _ => s.kind = .vars ∧ varsScanBug (kindsOf st.rules) = true
+  | .insertOrdered s i _ =>
+      (s.kind = .vars ∧ varsScanBug (kindsOf st.rules) = true) ∨
+      (orderedFallback (kindsOf st.rules) s.kind = true ∧ i ≠ (st.rules.length : Int))
+  | _ => False
+
+instance (st : St) (op : Op) : Decidable (OrderRegion st op) := by
+  cases op <;> unfold OrderRegion <;> exact inferInstance
+
 structure Valid (st : St) : Prop where
   top : TopOK st.rules
   kids : ∀ r ∈ st.rules, r.kidsOK = true
